@@ -87,6 +87,7 @@ structure SizeCfg where
   strLatin1 : Nat       -- header of a str whose widest character is in U+0080..U+00FF, + 1 per character
   strUcs2 : Nat         -- ... U+0100..U+FFFF, + 2 per character
   strUcs4 : Nat         -- ... above, + 4 per character
+  fdictOverhead : Nat   -- sys.getsizeof(FrozenDict(d)) - sys.getsizeof(d): FrozenDict.__sizeof__ adds the dict it owns
 deriving Repr
 
 inductive SeqK where | tuple | list
@@ -118,6 +119,13 @@ def SizeCfg.strSize (c : SizeCfg) (cls : StrClass) (n : Nat) : Nat :=
 def strClassOf (maxCodePoint : Nat) : StrClass :=
   if maxCodePoint < 128 then .ascii else if maxCodePoint < 256 then .latin1
   else if maxCodePoint < 65536 then .ucs2 else .ucs4
+
+/-- `sys.getsizeof` of a `utils.FrozenDict` whose private dict has `dictSize` bytes -/
+def SizeCfg.fdictSize (c : SizeCfg) (dictSize : Nat) : Nat := c.fdictOverhead + dictSize
+
+/-- `dict_set`: `utils.limit_memory_usage(engine, (1, d), (1, key), (1, value))` -/
+def dictSetCheck (c : SizeCfg) (quota : Int) (dictSize keySize valSize : Nat) : Bool :=
+  limitMemory quota [(1, c.fdictSize dictSize), (1, keySize), (1, valSize)]
 
 /-! ## repetition: `list_by_int`, `string_by_int` -/
 
